@@ -1656,9 +1656,9 @@ func evcWorker(tier string, seed int64, race bool, reportPath string) *evcCol {
 	ensureDefaultDispatcherInit()
 	fenceInit()
 	thorough := tier == "thorough"
-	nA, nB := 60, 30
+	nA, nB := 48, 27
 	if thorough {
-		nA, nB = 3000, 1500
+		nA, nB = 2400, 1350
 	}
 	if race {
 		nA, nB = 12, 9
